@@ -26,6 +26,10 @@ def alphabet(rng, k=0, uniq=[500]):
         nodegen.ccr(h, e, p), nodegen.ccr(h, e, "stranger.x"), nodegen.cca(h, e, p), nodegen.unk(h, e, p),
         # application ids announced in the other role only: nothing in common
         nodegen.cer(p, "", h, e, ",acct=4"), nodegen.cer(p, "3", h, e), nodegen.cer(p, "3", h, e, ",acct=4"),
+        # a 2001 CEA is a 2001 CEA, whatever applications it lists (other ids, the other role, none at all)
+        nodegen.cea(2001, p, h, e, auth="99"), nodegen.cea(2001, p, h, e, auth="3"),
+        f"CE:0:0:{h}:{e}:rc=2001,oh={p},or={nodegen.REALM},ip=10.1.1.1,vid=9,pn=prod",
+        f"CE:0:0:{h}:{e}:rc=2001,oh={p},or={nodegen.REALM},ip=10.1.1.1,vid=9,pn=prod,acct=4",
         # application ids inside Vendor-Specific-Application-Id: shared, in the other role only, next to a plain one
         nodegen.cer(p, "", h, e, ",vauth=4"), nodegen.cer(p, "", h, e, ",vacct=4"), nodegen.cer(p, "", h, e, ",vacct=3"),
         nodegen.cer(p, "99", h, e, ",vauth=4+5"), nodegen.cer(p, "", h, e, ",vauth=99,vacct=98"),
@@ -180,6 +184,10 @@ def scenarios(rng: random.Random, tier: str) -> list[str]:
                 out.append(nodegen.CONFIGS[cfgn] + " | start fail | acc | rx 0 " + msg + " | rx 0 " + nodegen.dwr(81, 82) + " | tick")
         for relay in (",acct=4294967295", ",vauth=4294967295"):
             out.append(nodegen.CONFIGS[cfgn] + " | start fail | acc | rx 0 " + nodegen.cer("peer1.x", "", 83, 84, relay) + " | tick")
+    # a node without applications dials a peer: the 2001 CEA makes the connection ready
+    noapp_out = (f"NODE host={nodegen.HOST};realm={nodegen.REALM};peer:peer1.x,{nodegen.REALM},1,0,30,1,0,-,-,-,-")
+    for a in ("4", "99"):
+        out.append(noapp_out + " | start ok | rx 0 " + nodegen.cea(2001, "peer1.x", 2001, 9, auth=a) + " | tick | rx 0 " + nodegen.dwr(85, 86) + " | tick")
     # timeout grid: node-level CER/CEA timeouts other than the defaults, peers without overrides
     for cea_t, cer_t in ((1, 2), (2, 1), (9, 7), (3, 3)):
         cfg = (f"NODE host={nodegen.HOST};realm={nodegen.REALM};cea={cea_t};cer={cer_t};idle=60;"
